@@ -18,7 +18,7 @@ import (
 
 // TokSpec is one token of a C10 sequence with its trimming.
 type TokSpec struct {
-	Kind    int    `json:"kind"` // 0 Rune '(' 1 Op "==" 2 Word "let" 3 Integer 4 String 5 Many1(b) 6 Any(a,ab) 7 Choice(',',Empty) 8 Empty 9 Choice(LeftTrim('(',Left),'[') 10 Choice(';',End()) 11 LeftTrim(Optional('!')) 12 Optional(LeftTrim('!',Left)) 13 Many(b)
+	Kind    int    `json:"kind"` // 0 Rune '(' 1 Op "==" 2 Word "let" 3 Integer 4 String 5 Many1(b) 6 Any(a,ab) 7 Choice(',',Empty) 8 Empty 9 Choice(LeftTrim('(',Left),'[') 10 Choice(';',End()) 11 LeftTrim(Optional('!')) 12 Optional(LeftTrim('!',Left)) 13 Many(b) 14 Float
 	Text    string `json:"text"`
 	Left    int    `json:"left"`              // -1: no LeftTrim, else the mode
 	Right   int    `json:"right"`             // -1: no RightTrim, else the mode
@@ -114,6 +114,9 @@ func matchTok(d []byte, i int, ts TokSpec) (int, bool) {
 		return ModelWord(d, i, "let")
 	case 3:
 		l := ModelInteger(d, i)
+		return l.End, l.Match
+	case 14:
+		l := ModelFloat(d, i)
 		return l.End, l.Match
 	case 5:
 		e := i
@@ -266,6 +269,8 @@ func tokParser(ts TokSpec) parsley.Parser {
 		p = terminal.Word("w", "let", "let")
 	case 3:
 		p = terminal.Integer("i")
+	case 14:
+		p = terminal.Float("fl")
 	case 5:
 		p = combinator.Many1(terminal.Op("b"))
 	case 13:
@@ -632,7 +637,7 @@ func checkC10(ci interface{}, st *Stats) error {
 		keep := false
 		if i > 0 && i < len(c.Toks) {
 			a, b := c.Toks[i-1], c.Toks[i]
-			if (a.Kind == 2 || a.Kind == 3) && (b.Kind == 2 || b.Kind == 3) || (a.Kind == 5 || a.Kind == 13) && (b.Kind == 5 || b.Kind == 13) {
+			if (a.Kind == 2 || a.Kind == 3 || a.Kind == 14) && (b.Kind == 2 || b.Kind == 3 || b.Kind == 14) || (a.Kind == 5 || a.Kind == 13) && (b.Kind == 5 || b.Kind == 13) {
 				keep = true // word/number neighbours (and two b-runs) would merge
 			}
 			if a.Right == 3 || b.Left == 3 {
@@ -678,7 +683,7 @@ func genC10(t *rapid.T) interface{} {
 	mode := func(label string) int { return rapid.SampledFrom([]int{0, 1, 1, 2, 2, 2, 3}).Draw(t, label) }
 	for i := 0; i < n; i++ {
 		ts := TokSpec{Left: -1, Right: -1}
-		ts.Kind = rapid.SampledFrom([]int{0, 1, 2, 3, 4, 0, 1, 2, 3, 4, 5, 5, 6, 7, 7, 8, 9, 9, 11, 11, 12, 12, 13, 13}).Draw(t, "kind")
+		ts.Kind = rapid.SampledFrom([]int{0, 1, 2, 3, 4, 0, 1, 2, 3, 4, 14, 14, 5, 5, 6, 7, 7, 8, 9, 9, 11, 11, 12, 12, 13, 13}).Draw(t, "kind")
 		switch ts.Kind {
 		case 0:
 			ts.Text = "("
@@ -688,6 +693,8 @@ func genC10(t *rapid.T) interface{} {
 			ts.Text = "let"
 		case 3:
 			ts.Text = fmt.Sprint(rapid.IntRange(0, 99).Draw(t, "int"))
+		case 14:
+			ts.Text = rapid.SampledFrom([]string{"1.5", "0.25", "2.0e3", "10.0", "3.5E-2"}).Draw(t, "float")
 		case 4:
 			ts.Text = rapid.SampledFrom([]string{`"s"`, `""`, `"a b"`, `"\n"`, `"\t\t"`, `"é"`, `"\u0041b"`, `"x\\y"`}).Draw(t, "str")
 		case 5:
@@ -771,7 +778,7 @@ func genC10(t *rapid.T) interface{} {
 		}
 		if g == "" && i > 0 && i < n {
 			a, b := c.Toks[i-1], c.Toks[i]
-			if (a.Kind == 2 || a.Kind == 3) && (b.Kind == 2 || b.Kind == 3) || (a.Kind == 5 || a.Kind == 13) && (b.Kind == 5 || b.Kind == 13) {
+			if (a.Kind == 2 || a.Kind == 3 || a.Kind == 14) && (b.Kind == 2 || b.Kind == 3 || b.Kind == 14) || (a.Kind == 5 || a.Kind == 13) && (b.Kind == 5 || b.Kind == 13) {
 				g = " " // neighbours that would merge into one token
 			}
 		}
